@@ -104,7 +104,10 @@ def run_unit(name, repo, workdir, expanded=None, rlimit=30, bless=False, threads
     res['functions_under_contract'] = U.functions_under_contract
     res['rewrites'] = U.rewrite_counts()
     res['trusted'] = ['%s %s (line %d)' % h for h in scan_trusted(text)]
-    cmd = ['verus', fpath, '--output-json', '--time', '--rlimit', str(rlimit), '--num-threads', str(threads), '--multiple-errors', '4']
+    flags = list(getattr(mod, 'VERUS_FLAGS', []))
+    cmd = ['verus', fpath, '--output-json', '--time', '--rlimit', str(rlimit), '--num-threads', str(threads), '--multiple-errors', '4'] + flags
+    for fl in flags:
+        res['trusted'].append('verus flag %s (%s)' % (fl, getattr(mod, 'VERUS_FLAGS_WHY', '')))
     res['checker_cmd'] = ' '.join(cmd)
     try:
         p = subprocess.run(cmd, cwd=workdir, capture_output=True, text=True, timeout=1500)
@@ -188,6 +191,10 @@ def run_unit(name, repo, workdir, expanded=None, rlimit=30, bless=False, threads
             return res
         res['status'] = 'violation'
         res['reason'] = '; '.join(sorted(set(e['head'] for e in viol))[:4])
+        return res
+    if vr.get('encountered-error') and not flags:
+        res['status'] = 'undecided'
+        res['reason'] = 'verus reported a non-proof error after verification: ' + '; '.join(e['head'] for e in errs[:3])
         return res
     # all green: vacuity guard
     if not expected:
